@@ -73,12 +73,18 @@ pub struct GateInner {
     pub open: bool,
     pub closed: bool,
     pub calls_after_close: usize,
+    /// global sequence number of each call (same index as `calls`), taken when the call is logged
+    pub stamps: Vec<u64>,
 }
 
 #[derive(Default)]
 pub struct GateShared {
     pub m: Mutex<GateInner>,
     pub cv: Condvar,
+    /// global history clock shared with the producer / flusher threads of a trace run
+    pub clock: AtomicU64,
+    /// trace runs: busy-wait this many microseconds inside every `next` (a slow stream)
+    pub slow_us: AtomicU64,
 }
 
 impl GateShared {
@@ -88,6 +94,13 @@ impl GateShared {
     pub fn release(&self, k: usize) {
         self.lock().permits += k;
         self.cv.notify_all();
+    }
+    pub fn tick(&self) -> u64 {
+        self.clock.fetch_add(1, Ordering::SeqCst)
+    }
+    fn log(&self, g: &mut GateInner, c: Call) {
+        g.calls.push(c);
+        g.stamps.push(self.tick());
     }
     pub fn open(&self) {
         self.lock().open = true;
@@ -152,11 +165,11 @@ impl EntryIoStream for GateStream {
             g.calls_after_close += 1;
         }
         if cap.report {
-            g.calls.push(Call::Report);
+            self.shared.log(&mut g, Call::Report);
             return Ok(());
         }
         let (Some(id), Some(res)) = (cap.id, cap.res) else {
-            g.calls.push(Call::Unknown);
+            self.shared.log(&mut g, Call::Unknown);
             return Ok(());
         };
         let res = match res {
@@ -173,8 +186,15 @@ impl EntryIoStream for GateStream {
                 g.permits -= 1;
             }
         }
-        g.calls.push(Call::Next(id, res));
+        self.shared.log(&mut g, Call::Next(id, res));
         drop(g);
+        let slow = self.shared.slow_us.load(Ordering::Relaxed);
+        if slow > 0 {
+            let t = Instant::now();
+            while t.elapsed() < Duration::from_micros(slow) {
+                std::hint::spin_loop();
+            }
+        }
         match res {
             Res::Ok => Ok(()),
             Res::Validation => Err(IoStreamError::Validation(ValidationError::invalid("scripted"))),
@@ -187,7 +207,7 @@ impl EntryIoStream for GateStream {
         if g.closed {
             g.calls_after_close += 1;
         }
-        g.calls.push(Call::Flush);
+        self.shared.log(&mut g, Call::Flush);
         Ok(())
     }
 }
